@@ -281,17 +281,17 @@ theorem specPageBytes_head (cfg : SWCfg) (c : Col) (codec : Nat) (compress : Byt
     intro ve de re hb
     obtain ⟨so, hso⟩ := decPHdr_muHdr cfg c es (spRaw cfg c cs es).length (spComp codec compress (spRaw cfg c cs es)).length ve de re
     exact ⟨_, hso, checkPage_enc _ _ _ _ _ _ _ _ _ hb⟩
-  have hsp : ∃ ph, decPHdr (muHdr cfg c es (spRaw cfg c cs es).length (spComp codec compress (spRaw cfg c cs es)).length 0 3 3) = some ph :=
-    let ⟨so, hso⟩ := decPHdr_muHdr cfg c es (spRaw cfg c cs es).length (spComp codec compress (spRaw cfg c cs es)).length 0 3 3
+  have hsp : ∃ ph, decPHdr (muHdr cfg c es (spRaw cfg c cs es).length (spComp codec compress (spRaw cfg c cs es)).length 0 (cfg.defLabel c) (cfg.repLabel c)) = some ph :=
+    let ⟨so, hso⟩ := decPHdr_muHdr cfg c es (spRaw cfg c cs es).length (spComp codec compress (spRaw cfg c cs es)).length 0 (cfg.defLabel c) (cfg.repLabel c)
     ⟨_, hso⟩
   cases m with
   | none =>
     obtain ⟨ph, hph⟩ := hsp
-    exact ⟨muHdr cfg c es (spRaw cfg c cs es).length (spComp codec compress (spRaw cfg c cs es)).length 0 3 3,
+    exact ⟨muHdr cfg c es (spRaw cfg c cs es).length (spComp codec compress (spRaw cfg c cs es)).length 0 (cfg.defLabel c) (cfg.repLabel c),
       spComp codec compress (spRaw cfg c cs es), rfl, rfl, muHdr_wf .., muHdr_need .., ph, hph, fun h => absurd h (by simp [Mutation.pageBad])⟩
   | codec k =>
     obtain ⟨ph, hph⟩ := hsp
-    exact ⟨muHdr cfg c es (spRaw cfg c cs es).length (spComp codec compress (spRaw cfg c cs es)).length 0 3 3,
+    exact ⟨muHdr cfg c es (spRaw cfg c cs es).length (spComp codec compress (spRaw cfg c cs es)).length 0 (cfg.defLabel c) (cfg.repLabel c),
       spComp codec compress (spRaw cfg c cs es), rfl, rfl, muHdr_wf .., muHdr_need .., ph, hph, fun h => absurd h (by simp [Mutation.pageBad])⟩
   | dictPage =>
     obtain ⟨h1, h2, h3, ph, h4, h5⟩ := dictHdr_ok
@@ -561,7 +561,7 @@ theorem requiredDoRead_codec (dc : Decomp) (cfg : SWCfg) (c : Col) (codec : Nat)
     ((spPage cfg c codec compress cs es).2 ++ rest)
   simp only [spPage, List.append_assoc] at hrs ⊢
   rw [requiredDoRead, if_pos hlt]
-  simp only [bind, Except.bind, hrs, hso, pure, Except.pure, checkPage_spPH, Bool.not_true,
+  simp only [bind, Except.bind, hrs, hso, pure, Except.pure, checkPage_spPH_required, Bool.not_true,
     Bool.false_eq_true, if_false, numValuesOf_spPH, C18.codec_refused dc _ _ pg.codec h0 h1 h2]
 
 theorem optionalDoRead_codec (dc : Decomp) (cfg : SWCfg) (c : Col) (codec : Nat) (compress : Bytes → Bytes) (pg : PageMeta)
@@ -575,8 +575,8 @@ theorem optionalDoRead_codec (dc : Decomp) (cfg : SWCfg) (c : Col) (codec : Nat)
     ((spPage cfg c codec compress cs es).2 ++ rest)
   simp only [spPage, List.append_assoc] at hrs ⊢
   rw [optionalDoRead, if_pos hlt]
-  simp only [bind, Except.bind, hrs, hso, pure, Except.pure, checkPage_spPH, Bool.not_true,
-    Bool.false_eq_true, if_false, C18.codec_refused dc _ _ pg.codec h0 h1 h2]
+  -- whether or not `checkPage` accepts the labels (nothing is assumed about the column here), the result is an error
+  simp only [bind, Except.bind, hrs, hso, pure, Except.pure, C18.codec_refused dc _ _ pg.codec h0 h1 h2, ite_self]
 
 /-- the typed `Read` started at the chunk's first byte — wherever the chunk lies in the file, whatever the
 buffer holds — returns an error -/
@@ -1957,6 +1957,33 @@ example : (readOutcome fmCols fmDc (specWrite fmCfg (fun _ b => b) (some ⟨2, 1
     .refused []) = true := by decide +kernel
 /-- a page index past the chunk's pages mutates nothing: the file is read normally -/
 example : (readOutcome fmCols fmDc (specWrite fmCfg (fun _ b => b) (some ⟨0, 1, 5, .dictPage⟩) fmCs fmGroups) ==
+    .accepted [fmRec 1, fmRec 2, fmRec 3, fmRec 4, fmRec 5, fmRec 6]) = true := by decide +kernel
+
+/-! ### the same with parquet-mr style labels on the un-mutated pages (`mrLabels := true`) -/
+
+private def fmCfgMr : SWCfg := { fmCfg with mrLabels := true }
+
+/-- the theorem applied to a file with parquet-mr style labels: the chunk of the required column `a` (both level
+encodings labelled BIT_PACKED) and the first page of column `b` are read, then the dictionary page is refused -/
+example : readOutcome fmCols fmDc (specWrite fmCfgMr (fun _ b => b) (some ⟨0, 1, 1, .dictPage⟩) fmCs fmGroups) = .refusedAtOpen :=
+  readOutcome_specWrite_mutated fmCfgMr (fun _ b => b) fmDc fmCs fmGroups ⟨0, 1, 1, .dictPage⟩
+    (colsResolve_of_check _ (by decide +kernel)) (by decide) (fun _ => ⟨rfl, rfl⟩) fm_recs (by decide) fm_len
+    (by decide +kernel) (by decide) (by decide) (by decide +kernel) (by decide)
+
+/-- ... the whole first row group (labels `(4, 4)` on column `a`) is delivered before the refusal -/
+example : readOutcome fmCols fmDc (specWrite fmCfgMr (fun _ b => b) (some ⟨1, 0, 0, .valueEncoding 2⟩) fmCs fmGroups) =
+    .refused [fmRec 1, fmRec 2, fmRec 3] :=
+  readOutcome_specWrite_mutated fmCfgMr (fun _ b => b) fmDc fmCs fmGroups ⟨1, 0, 0, .valueEncoding 2⟩
+    (colsResolve_of_check _ (by decide +kernel)) (by decide) (fun _ => ⟨rfl, rfl⟩) fm_recs (by decide) fm_len
+    (by decide +kernel) (by decide) (by decide) (by decide +kernel) (by decide)
+
+/-- by kernel evaluation: the labels are in the file; a level-encoding label on the required column is no reason
+to refuse, with either style of labels -/
+example : specWrite fmCfgMr (fun _ b => b) (some ⟨1, 0, 0, .valueEncoding 2⟩) fmCs fmGroups ≠
+    specWrite fmCfg (fun _ b => b) (some ⟨1, 0, 0, .valueEncoding 2⟩) fmCs fmGroups := by decide +kernel
+example : (readOutcome fmCols fmDc (specWrite fmCfgMr (fun _ b => b) (some ⟨1, 0, 0, .valueEncoding 2⟩) fmCs fmGroups) ==
+    .refused [fmRec 1, fmRec 2, fmRec 3]) = true := by decide +kernel
+example : (readOutcome fmCols fmDc (specWrite fmCfgMr (fun _ b => b) (some ⟨2, 0, 0, .repEncoding 1⟩) fmCs fmGroups) ==
     .accepted [fmRec 1, fmRec 2, fmRec 3, fmRec 4, fmRec 5, fmRec 6]) = true := by decide +kernel
 
 end NonVacuity
